@@ -36,6 +36,42 @@ def loom_outcomes():
     return res, panicked, out
 
 
+def two_writer_cases(out=None):
+    """the two-writer programs of the hook -> (cases for model 13, implementation outcome sets in the model's encoding)"""
+    if out is None:
+        _, _, out = loom_outcomes()
+    cases, impl = [], []
+    for m in re.finditer(r"VERIF-LOOM2 (\S+) credit=(\d+) pa=(\d+) pb=(\d+) ack=(\d+) close=(\d+) => \[(.*?)\]", out):
+        outs = set()
+        for o in re.findall(r'"([^"]*)"', m.group(7)):
+            rs, credit, fin = o.split()
+            ra, rb = rs.split("|")
+            outs.add(tuple([len(ra)] + [RES[ch] for ch in ra] + [len(rb)] + [RES[ch] for ch in rb] + [int(credit), int(fin)]))
+        cases.append("13 %s %s %s %s %s" % m.group(2, 3, 4, 5, 6))
+        impl.append(" ".join(str(x) for o in sorted(outs) for x in o))
+    if not cases:
+        raise C.Failure("the two-writer loom programs did not run (hook missing or build failed)", out[-2000:])
+    return cases, impl
+
+
+def two_writer_violation(case, impl):
+    """conservation on every final outcome of a two-writer program"""
+    t = [int(x) for x in case.split()]
+    credit, ack = t[1], t[4]
+    v = [int(x) for x in impl.split()]
+    i = 0
+    while i < len(v):
+        na = v[i]; ra = v[i + 1:i + 1 + na]; i += 1 + na
+        nb = v[i]; rb = v[i + 1:i + 1 + nb]; i += 1 + nb
+        fc, fin = v[i], v[i + 1]; i += 2
+        taken = sum(1 for r in ra + rb if r == 0)
+        if taken > credit + ack:
+            return "two racing writers obtained %d permissions but only %d units of credit ever existed" % (taken, credit + ack)
+        if fc != credit + ack - taken:
+            return "credit not conserved with two racing writers: %d + %d - %d taken, final credit %d" % (credit, ack, taken, fc)
+    return None
+
+
 def decode_sets(line):
     t = [int(x) for x in line.split()]
     outs, i = set(), 0
@@ -117,6 +153,19 @@ def run(tier, seed, replay=None):
                 payload["what"] = "loom outcome set of the real functions differs from the model's"
                 if not res.violations:
                     res.violation(C.write_replay(PROP, seed, payload), "outcome sets differ for %s %s" % (name, k), no_input=True)
+        c2, i2 = two_writer_cases(raw)
+        m2 = C.run_driver(drv, c2)
+        for c, i, m in zip(c2, i2, m2):
+            programs += 1
+            if i == m:
+                validated += 1
+                continue
+            disagreements += 1
+            what = two_writer_violation(c, i)
+            payload = {"property": PROP, "program": "two writers: " + c, "implementation_outcomes": i, "model_outcomes": m,
+                       "encoding": "per outcome: nA resultsA.. nB resultsB.. final credit, closed", "repo_head": C.repo_head(),
+                       "kind": "failing-schedule-class" if what else "correspondence-break", "what": what or "outcome sets differ"}
+            res.violation(C.write_replay(PROP, seed, payload), what or "two-writer outcome sets differ for %s" % c, no_input=(what is None and bool(res.violations)) or (what is None))
         if panicked:
             res.violation(C.write_replay(PROP, seed, {"property": PROP, "kind": "loom-panic", "what": raw[-2000:]}),
                           "the loom run panicked", no_input=not res.violations)
